@@ -192,7 +192,19 @@ var skeletonFuncs = []string{"ServeHTTP", "handleCallback", "processAuthorizedRe
 
 var cacheTextMethods = []string{"Set", "Get", "Delete", "Cleanup", "evictOldest", "removeItem"}
 
-var sessionTextFuncs = []string{"compressToken", "decompressToken", "deriveBlockKey", "NewSessionManager", "SessionManager.getSessionOptions", "SessionManager.GetSession",
+var sessionTextFuncs = []string{
+	// jwt.go / jwk.go (model Oidc.Jwt)
+	"parseJWT", "JWT.Verify", "verifyAudience", "verifyIssuer", "verifyTimeConstraint", "verifyExpiration", "verifyIssuedAt", "verifyNotBefore", "verifySignature",
+	"JWKCache.GetJWKS", "JWKCache.Cleanup", "jwkToPEM", "TraefikOidc.VerifyJWTSignatureAndClaims",
+	// token verification, caches, limiter (model Oidc.Verify, Oidc.Limiter)
+	"TraefikOidc.VerifyToken", "TraefikOidc.performPreVerificationChecks", "TraefikOidc.RevokeToken", "TokenCache.Set", "TokenCache.Get", "TokenCache.Delete", "TokenCache.Cleanup", "extractClaims",
+	// discovery (model Oidc.Discovery)
+	"TraefikOidc.initializeMetadata", "TraefikOidc.updateMetadataEndpoints", "TraefikOidc.startMetadataRefresh", "discoverProviderMetadata", "fetchMetadata",
+	"MetadataCache.GetMetadata", "MetadataCache.isCacheValid", "MetadataCache.Cleanup",
+	// claims and allow-lists (model Oidc.Strings, Handler.extract)
+	"TraefikOidc.isAllowedDomain", "TraefikOidc.extractGroupsAndRoles", "isLocalRedirectTarget", "buildFullURL", "TraefikOidc.determineExcludedURL",
+	// session.go (models Oidc.Session, Oidc.Codec)
+	"compressToken", "decompressToken", "deriveBlockKey", "NewSessionManager", "SessionManager.getSessionOptions", "SessionManager.GetSession",
 	"SessionManager.getTokenChunkSessions", "SessionData.Save", "SessionData.deleteStaleChunkCookies", "SessionData.Clear", "SessionData.clearTokenChunks",
 	"SessionData.GetAccessToken", "SessionData.SetAccessToken", "SessionData.GetRefreshToken", "SessionData.SetRefreshToken",
 	"SessionData.expireAccessTokenChunks", "SessionData.expireRefreshTokenChunks", "splitIntoChunks", "SessionData.GetAuthenticated", "SessionData.SetAuthenticated"}
